@@ -160,6 +160,41 @@ def sh2(prog):
                                 "Var(l, p) | l = v gives %s when p == v and %s otherwise" % (tr[3], f[3])
     out.append(inst("SH", "%s:SH2:literal" % fn.npath, VIOLATION if err and "gives" in err else (UNDECIDED if err else OK), fn, None,
                     err or "Var(l,p) | l=v is True iff p == v"))
+    # SDD binary decision handled directly: on a path that returns a child of the pointer itself through the
+    # complement-aware accessors, value = true must return the high child and value = false the low child, for the
+    # regular and for the complemented variant alike (the accessors already apply the complement).  Today the binary
+    # case goes through the generic element loop, so there is no such path: the instance appears with the fast path.
+    ptr, valp = ("param", 2), ("param", 4)
+    errs, n = [], 0
+    for variant in ("BDD", "ComplBDD"):
+        for r, conds in (canon.paths_under(fn, ptr, variant, with_conds=True) or []):
+            r0 = strip(r)
+            if not (mir.is_call(r0) and r0[1].name in ("high", "low") and r0[2] and strip(r0[2][0]) == ptr):
+                continue
+            v = None
+            for c, lab, _ in conds:
+                c0 = strip(c)
+                truth = None if lab not in ("0", "1", ("not", ("0",)), ("not", ("1",))) else (lab in ("1", ("not", ("0",))))
+                if truth is None:
+                    continue
+                if c0 == valp:
+                    v = truth
+                elif c0[0] == "bin" and c0[1] in ("Eq", "Ne") and valp in (strip(c0[2]), strip(c0[3])):
+                    k = strip(c0[3]) if strip(c0[2]) == valp else strip(c0[2])
+                    if k[0] == "const" and k[2] in ("0", "1"):
+                        eq = truth == (c0[1] == "Eq")
+                        v = (k[2] == "1") if eq else (k[2] != "1")
+            if v is None:
+                continue
+            n += 1
+            want = "high" if v else "low"
+            if r0[1].name != want:
+                errs.append("for a %s pointer, value = %s returns the %s child: the accessors already apply the complement, so "
+                            "the choice must not depend on the pointer's sign" % (
+                                "complemented binary" if variant == "ComplBDD" else "regular binary", str(bool(v)).lower(), r0[1].name))
+    if n:
+        out.append(inst("SH", "%s:SH2:binary-case" % fn.npath, VIOLATION if errs else OK, fn, None,
+                        "; ".join(dict.fromkeys(errs)) if errs else "value=true ↦ high(f), value=false ↦ low(f) for both signs"))
     return out
 
 
